@@ -136,8 +136,17 @@ void ExecImpl::op_destroy_seq(const Op& op) {
   for (auto& mo : M.mons) if (mo.alive) for (int i = 0; i < mo.nseq; ++i) if (mo.seq[i] == id) referenced = true;
   if (referenced && !globals().known_seq_destroy_live_allowed) return;
   std::vector<XRep> want;
+  if (s.list.empty() && s.tainted) {
+    XRep x; x.kind = RK_SEQNOTMET; x.fatal = false; x.optional = true; x.any_of_m = true; want.push_back(x);
+  }
   if (!s.list.empty()) {
     XRep x; x.kind = RK_SEQNOTMET; x.fatal = false; x.entries = s.list;
+    bool only_monitors = true;
+    for (auto& en : s.list) if (!en.is_mon) only_monitors = false;
+    // C06 speaks of call expectations; requirements (monitors) still registered may or may not be listed (DESIGN 3.5),
+    // and after a reported violation in this sequence nothing about it is asserted
+    if (only_monitors || s.tainted) x.optional = true;
+    if (s.tainted) x.any_of_m = true;
     want.push_back(x);
     ++st.p_seq_destroy_nonempty;
   }
